@@ -192,8 +192,50 @@ def fam_destructure(n):
     return src, "4242,%d" % (n - 1)
 
 
+def fam_destructure_rest(n):
+    # n bound elements, then a rest element: the rest must start after the n-th element for every n
+    src = "let keep = 4242; const [%s...rest] = [%s]; [keep, rest.length, rest[0], rest[4], %s].join(',')" % (
+        "".join("d%d," % i for i in range(n)), ",".join(str(i) for i in range(n + 5)), ("d%d" % (n - 1)) if n else "-1")
+    return src, "4242,5,%d,%d,%d" % (n, n + 4, n - 1)
+
+
+def fam_destructure_holes(n):
+    # assignment pattern (not a declaration) with n holes before one target and a rest, over a string
+    src = "let keep = 4242; let a: any, rest: any; [%s a, ...rest] = '%s'.split(''); [keep, a, rest.length, rest.join('')].join(',')" % ("," * n, "".join(chr(97 + (i % 26)) for i in range(n + 4)))
+    return src, "4242,%s,3,%s" % (chr(97 + (n % 26)), "".join(chr(97 + (i % 26)) for i in range(n + 1, n + 4)))
+
+
+def fam_destructure_params(n):
+    # a parameter pattern with n elements and a rest, called with n + 3 values
+    src = "let keep = 4242; function f([%s...rest]: number[]) { return rest.length + ':' + rest[0] + ':' + %s; } [keep, f([%s])].join(',')" % (
+        "".join("q%d," % i for i in range(n)), ("q%d" % (n - 1)) if n else "-1", ",".join(str(i) for i in range(n + 3)))
+    return src, "4242,3:%d:%d" % (n, n - 1)
+
+
+def fam_object_pattern(n):
+    # object pattern with n properties (defaults on every third) and a rest object
+    props = ",".join(("k%d = -1" % i) if i % 3 == 0 else ("k%d" % i) for i in range(n))
+    src = "let keep = 4242; const {%s...others} = {%s}; [keep, Object.keys(others).length, others.z0, %s].join(',')" % (
+        props + ("," if n else ""), ",".join(["k%d: %d" % (i, i) for i in range(n)] + ["z0: 7", "z1: 8"]), ("k%d" % (n - 1)) if n else "-1")
+    return src, "4242,2,7,%d" % (n - 1)
+
+
+def fam_spread_calls(n):
+    # n spread arguments of one element each
+    src = "let keep = 4242; function f(...r: number[]) { return r.length + ':' + r[r.length - 1]; } [keep, f(%s)].join(',')" % ",".join("...[%d]" % i for i in range(n))
+    return src, "4242,%d:%s" % (n, str(n - 1) if n else "undefined")
+
+
+def fam_optional_chain(n):
+    # a member chain of depth n built at run time and read through ?. (and a chain that is cut at the root)
+    src = "let keep = 4242; let o: any = {v: 9}; for (let i = 0; i < %d; i++) o = {p: o}; const none: any = null; [keep, o%s.v, String(none%s)].join(',')" % (n, "?.p" * n, "?.p" * max(n, 1))
+    return src, "4242,9,undefined"
+
+
 REG_FAMILIES = {"array": fam_array, "object": fam_object, "args": fam_args, "params": fam_params, "template": fam_template,
-                "switch": fam_switch, "seqexpr": fam_seqexpr, "concat": fam_concat, "elseif": fam_elseif, "destructure": fam_destructure}
+                "switch": fam_switch, "seqexpr": fam_seqexpr, "concat": fam_concat, "elseif": fam_elseif, "destructure": fam_destructure,
+                "destructure_rest": fam_destructure_rest, "destructure_holes": fam_destructure_holes, "destructure_params": fam_destructure_params,
+                "object_pattern": fam_object_pattern, "spread_calls": fam_spread_calls, "optional_chain": fam_optional_chain}
 CUMULATIVE = {"statements": fam_statements, "arraystmts": fam_arraystmts, "decls": fam_decls, "lengths": fam_lengths}
 CONST_FAMILIES = {"numconsts": fam_numconsts, "strconsts": fam_strconsts}
 
